@@ -982,23 +982,45 @@ def evaluate(ctx, cases):
             ctx.fail(clause, inp, io_, mo, note=detail, finding=cls)
 
 
+def json_key(c):
+    import json
+    return json.dumps({"env": c["env"], "acts": c["acts"]}, sort_keys=True)
+
+
 def run(ctx):
     cases = corpus_cases()
     ctx.hist("corpus", len(cases))
     e2e_corpus = [c for c in cases if c.get("kind") == "e2e"]
     cases = [c for c in cases if c.get("kind") != "e2e"]
-    n = ctx.n(40000, 400000)
+    big = ctx.tier == "thorough" or ctx.escalated
     batch = 4000
+
+    def stream(n):
+        done = 0
+        while done < n and not ctx.out_of_time():
+            k = min(batch, n - done)
+            evaluate(ctx, [gen_case(ctx.rng) for _ in range(k)])
+            done += k
+    # the ordinary quick portion first and completely (every family, every class) ...
     evaluate(ctx, cases)
-    ex = exhaustive_cases(*ctx.n((3, [":"]), (4, [":", "::", "|"])))
+    ex = exhaustive_cases(3, [":"])
     ctx.hist("exhaustive", len(ex))
     evaluate(ctx, ex)
-    evaluate_e2e(ctx, e2e_corpus + [gen_e2e(ctx.rng) for _ in range(ctx.n(240, 2400))])
-    done = 0
-    while done < n and not ctx.out_of_time():
-        k = min(batch, n - done)
-        evaluate(ctx, [gen_case(ctx.rng) for _ in range(k)])
-        done += k
+    evaluate_e2e(ctx, e2e_corpus + [gen_e2e(ctx.rng) for _ in range(240)])
+    stream(40000)
+    # ... and only then the enlarged budget (thorough tier, or a quick run escalated because a mirrored source changed),
+    # the families in turn so that none starves when time runs out
+    if big and not ctx.out_of_time():
+        evaluate_e2e(ctx, [gen_e2e(ctx.rng) for _ in range(700)])
+        stream(100000)
+    if big and not ctx.out_of_time():
+        seen = {json_key(c) for c in ex}
+        ex2 = [c for c in exhaustive_cases(4, [":", "::", "|"]) if json_key(c) not in seen]
+        ctx.hist("exhaustive", len(ex2))
+        evaluate(ctx, ex2)
+    if big and not ctx.out_of_time():
+        evaluate_e2e(ctx, [gen_e2e(ctx.rng) for _ in range(1460)])
+        stream(260000)
     if ctx.histogram.get("e2e", 0) >= 100:
         for cls in ("e2e-rollback-ref=True", "e2e-force=True", "e2e-force=False", "e2e-force-envset", "e2e-route=local", "e2e-route=declared"):
             if not ctx.histogram.get(cls):
